@@ -119,7 +119,10 @@ CHECKS["C01"] = dict(
           "occurrence, the first block of a repeated mother kept (empty blocks are tables), tables = those blocks with every line "
           "once in order; per line bf = value of the literal, daughters verbatim, PHOTOS flag, model name, parameters in order "
           "(numeric literal -> number, undefined word verbatim, absent list absent); exact values of every literal form. "
-          "PARTIAL: text -> statement list is the front-end model of C02 (Dec/FrontEnd.parse_text, with its round-trip theorems), "
+          "TEXT LEVEL (Dec/Whole.v = front-end model of C02 followed by the model of parse(); C01_text_level, C01_files_level): every "
+          "spelling (white space, comments, LF / CR LF) of every layout (blank lines, wrapped parameter lists, repeated semicolons, final End; "
+          "several files with BOM) of a statement list is read to exactly the tables the list states. "
+          "PARTIAL: the front-end model (Dec/FrontEnd.parse_text, with its round-trip theorems) is "
           "cross-checked on every case against the statement list the model term is built from, and tied to Lark by the "
           "correspondence through the real parser (all alphabet characters, every published model name, all literal forms); "
           "there is no theorem about Lark itself."),
@@ -130,6 +133,8 @@ CHECKS["C05"] = dict(
           "by its literal, textually negated after a leading minus; every ModelAlias use replaced by model + parameters) have "
           "identical decay tables incl. copied/conjugated ones and errors, wherever definitions are placed and however often "
           "used; last definition wins; undefined words verbatim; negating a literal's text negates its value. Unbounded. "
+          "TEXT LEVEL (C05_text_level over Dec/Whole.v): any spelling of any layout of the file and any spelling of any layout of its "
+          "expansion are read to the same result. "
           "PARTIAL front end as C01 (front-end model of C02 cross-checked on every case; Lark itself tied by correspondence)."),
     design="DESIGN.md §5 C05",
     technique="Coq proof (statement-list induction, dictionary last-wins lemma, literal negation lemma) + differential correspondence + expanded-file oracle")
@@ -166,7 +171,9 @@ CHECKS["C03"] = dict(
           "exactly the line-by-line conjugate (same order, bf, PHOTOS, model, parameters; every daughter and the mother conjugated "
           "by the same rule), leaves all existing tables untouched, adds nothing without a source; Decay takes precedence; switch "
           "off adds nothing; conjugation is involutive unless marked unknown. Cache invariant proved for any number of tables / "
-          "lines / daughters. PARTIAL front end as C01."),
+          "lines / daughters. TEXT LEVEL (C03_text_level over Dec/Whole.v): for any spelling of any layout of a file with well-formed "
+          "ChargeConj statements, what is read with conjugate decays enabled = what is read with them disabled, followed by the conjugated tables. "
+          "PARTIAL front end as C01."),
     design="DESIGN.md §5 C03",
     technique="Coq proof (invariant over the growing conjugation cache, instantiated with the regenerated particle tables) + differential correspondence through the real parser")
 
